@@ -35,8 +35,6 @@ CONSTANTS
     CacheConf,   \* FALSE is right; TRUE: a factory made from a component constructor keeps the first decoded config
     UseDefault,  \* TRUE is right; FALSE: the registered default-config func is ignored
     MaxCalls,    \* the factory is called 1..MaxCalls times (3 in the quick tier, 4 in the thorough tier)
-    CopyDefault, \* TRUE is right: a default-config func that returns THE SAME pointer on every call does not make products
-                 \* share one config object (the registry fills a copy); FALSE: the pointer is filled and handed on as it is
     ValidateDefaults, \* TRUE is right; FALSE: a section holding only `type` is not decoded - and so the defaults are not validated
     PanicRule    \* "noerr" is right: panic iff the requested factory type has no error result; "flipped": the other way round
 
@@ -52,8 +50,7 @@ DVs     == {"valid", "noreq", "minbad"}   \* what the registered default config 
 
 CaseSpace == [reg : Regs, ret : Rets, cfg : Cfgs, cerr : BOOLEAN, ferr : BOOLEAN, impl : BOOLEAN, dflt : BOOLEAN,
               form : Forms, fail : Fails, failAt : 1..MaxCalls, calls : 1..MaxCalls, nested : Nesteds, shape : Shapes,
-              mutate : BOOLEAN, user : Users, dv : DVs,
-              dsh : BOOLEAN]      \* the registered default-config func returns one shared pointer (func() *Conf { return theDefault })
+              mutate : BOOLEAN, user : Users, dv : DVs]
 
 \* The config struct carries validation tags (R: required, M: min=1).  The user's settings, when given, are valid; so the
 \* configuration a component would be built from is INVALID exactly when the user gives nothing and the defaults are not valid.
@@ -73,18 +70,15 @@ ValidSynth(c) ==
     \* user settings / default variants (normalised: no config => nothing to set or to validate)
     /\ (c.cfg = "none" => c.user = "empty" /\ c.dv = "valid")
     /\ (c.dv # "valid" => c.dflt /\ c.nested = "none" /\ c.fail = "none" /\ ~c.mutate)
-    /\ (c.user = "empty" /\ c.cfg # "none" => c.nested = "none" /\ c.fail # "conf" /\ (c.mutate => c.dsh))
+    /\ (c.user = "empty" /\ c.cfg # "none" => c.nested = "none" /\ c.fail # "conf" /\ ~c.mutate)
     /\ (InvalidConf(c) => c.fail = "none")
     \* an empty plugin list: the interesting part is that decoding and construction go through (no failure injection)
     /\ (c.nested = "list0" => c.fail = "none" /\ ~c.mutate /\ ~c.impl)
-    \* a shared default pointer: pointer config, component constructor called repeatedly through a factory
-    /\ (c.dsh => c.dflt /\ c.cfg = "ptr" /\ c.ret = "comp" /\ c.form # "New" /\ c.calls >= 2 /\ c.nested = "none"
-                 /\ c.fail = "none" /\ c.dv = "valid" /\ ~c.impl)
 
 \* the real registry: `rps` of a pool (a func() (core.Schedule, error) field) given as a list (-> composite of
 \* real `once` schedules) or as an explicit composite; schedule constructors take a struct, return core.Schedule
 ValidReal(c) ==
-    /\ c.reg = "real" /\ c.cfg = "struct" /\ ~c.cerr /\ ~c.ferr /\ ~c.impl /\ ~c.dsh
+    /\ c.reg = "real" /\ c.cfg = "struct" /\ ~c.cerr /\ ~c.ferr /\ ~c.impl
     /\ c.fail = "none" /\ c.failAt = 1 /\ ~c.mutate
     /\ \/ /\ c.ret = "comp" /\ ~c.dflt /\ c.form = "FactoryErr" /\ c.nested \in {"one", "list", "list0"} /\ c.user = "set" /\ c.dv = "valid"
        \* sections holding only `type`, real entries: startup {type: once} (times 0 violates min=1), rps {type: const}
@@ -193,12 +187,7 @@ CallStep(c, st, k) ==
         IN IF ~g[2] THEN Push(s1, CallFailure(c))
            ELSE LET s2 == [s1 EXCEPT !.nctor = @ + 1, !.cached = TRUE]
                 IN IF c.fail = "ctor" /\ c.failAt = s2.nctor THEN Push(s2, CallFailure(c))
-                   ELSE LET shared == c.dsh /\ ~CopyDefault      \* every Get fills and hands on the one default object
-                            first  == ~\E i \in 1..Len(st.prods) : st.prods[i].out = "ok"
-                            a == IF reuse /\ st.dirty /\ c.cfg = "ptr" THEN MutA
-                                 ELSE IF shared /\ st.dirty /\ c.user = "empty" THEN MutA     \* nothing overwrites the driver's mutation
-                                 ELSE ValA(c)
-                        IN Push(s2, Seen(c, a, (~reuse \/ c.cfg # "ptr") /\ (~shared \/ first)))
+                   ELSE Push(s2, Seen(c, IF reuse /\ st.dirty /\ c.cfg = "ptr" THEN MutA ELSE ValA(c), ~reuse \/ c.cfg # "ptr"))
 
 \* the driver writes MutA into the config held by the last product (if there is one)
 MutateStep(c, st) ==
